@@ -143,6 +143,7 @@ def _rebinds(cls):
     for fn in cls.body:
         if not isinstance(fn, (ast.FunctionDef, ast.AsyncFunctionDef)) or fn.name in ("__init__", "__setstate__"):
             continue
+        parents = {id(ch): n for n in ast.walk(fn) for ch in ast.iter_child_nodes(n)}
         for n in ast.walk(fn):
             tg = []
             if isinstance(n, ast.Assign):
@@ -166,7 +167,12 @@ def _rebinds(cls):
                 if n.args and isinstance(n.args[0], ast.Name) and n.args[0].id == "self":
                     out.append(f"{fn.name}: {n.func.id}(self, ...)")
             if isinstance(n, ast.Attribute) and n.attr == "__dict__" and isinstance(n.value, ast.Name) and n.value.id == "self":
-                out.append(f"{fn.name}: self.__dict__")
+                par = parents.get(id(n))
+                harmless = (isinstance(par, ast.Attribute) and par.attr == "get") or (
+                    isinstance(par, ast.Subscript) and par.value is n and isinstance(par.slice, ast.Constant)
+                    and isinstance(par.slice.value, str) and par.slice.value not in names)
+                if not harmless:
+                    out.append(f"{fn.name}: self.__dict__")
     return out
 
 
